@@ -317,6 +317,7 @@ func run(cx *lib.Ctx) {
 	directedRefinements(cx)
 	directedKnown(cx)
 	directedReeval(cx)
+	directedCondCollections(cx)
 	if t := res.Distribution["concrete-evals"]; t > 0 {
 		res.Notes = append(res.Notes, fmt.Sprintf("share of concrete evaluations ending in error: %.1f%%", 100*float64(res.Distribution["concrete-error"])/float64(t)))
 	}
